@@ -128,7 +128,7 @@ func workingFresh(sp *specNode) bool {
 }
 
 func badCase(tag string) Result {
-	return Result{Term: "SC [] []", Tags: []string{tag}}
+	return Result{Term: "SC [] [] false", Tags: []string{tag}}
 }
 
 func execSeen(input string) Result {
@@ -152,6 +152,10 @@ func execSeen(input string) Result {
 		return badCase("rejected:size")
 	}
 	hb := kv["m"] == "hb"
+	off, okc := applyOperatorFlags(kv["cfg"], false, "seenjob")
+	if !okc {
+		return badCase("rejected:syntax")
+	}
 
 	seenCaseNo++
 	job := fmt.Sprintf("%s/job%d", seenBase, seenCaseNo)
@@ -254,6 +258,16 @@ func execSeen(input string) Result {
 		}
 		terms = append(terms, term)
 	}
+	if off {
+		tags["operator:seencheck-off"] = true
+	} else if kv["cfg"] != "" && kv["cfg"] != "-" {
+		tags["operator:other-flags"] = true
+	} else {
+		tags["operator:defaults"] = true
+	}
+	if strings.Contains(kv["cfg"], "disable-local-dedupe") {
+		tags["flag:disable-local-dedupe"] = true
+	}
 	if hb {
 		tags["mode:hb-goroutines"] = true
 	} else {
@@ -288,7 +302,7 @@ func execSeen(input string) Result {
 	}
 	sortStrings(tl)
 	return Result{
-		Term:       fmt.Sprintf("SC %s %s", coqList(terms), coqList(keyPairs)),
+		Term:       fmt.Sprintf("SC %s %s %s", coqList(terms), coqList(keyPairs), coqBool(off)),
 		Tags:       tl,
 		Nontrivial: seenByEarlier && bothRoles,
 	}
@@ -348,7 +362,25 @@ func genSeen(r *Rng, i int, tier string) string {
 	}
 	mal := r.Chance(12) // arbitrary statuses for direct SeencheckItem calls
 	var steps []seenStep
+	life := r.Chance(35) // one seed's life, pass after pass, other seeds in between
+	var lifeTree *specNode
+	if life {
+		lifeTree = &specNode{url: r.Intn(nAbs), st: 0}
+		n += 2
+		mal = false
+	}
 	for k := 0; k < n; k++ {
+		if life && lifeTree != nil && r.Chance(70) {
+			kind := byte('P')
+			if r.Chance(10) {
+				kind = 'C'
+			}
+			steps = append(steps, seenStep{kind: kind, spec: lifeTree.clone()})
+			if !evolveSpec(r, lifeTree, len(pool), 45) {
+				lifeTree = nil
+			}
+			continue
+		}
 		if k > 0 && r.Chance(8) {
 			steps = append(steps, seenStep{kind: 'R'})
 			continue
@@ -364,7 +396,7 @@ func genSeen(r *Rng, i int, tier string) string {
 	if r.Chance(25) {
 		m = "hb"
 	}
-	return fmt.Sprintf("m=%s urls=%s steps=%s", m, hexURLs(pool), formatSteps(steps))
+	return fmt.Sprintf("m=%s cfg=%s urls=%s steps=%s", m, genOperatorFlags(r), hexURLs(pool), formatSteps(steps))
 }
 
 func shrinkSeen(input string) []string {
@@ -376,7 +408,7 @@ func shrinkSeen(input string) []string {
 	var out []string
 	emit := func(ss []seenStep) {
 		if len(ss) > 0 {
-			out = append(out, fmt.Sprintf("m=%s urls=%s steps=%s", kv["m"], kv["urls"], formatSteps(ss)))
+			out = append(out, fmt.Sprintf("m=%s cfg=%s urls=%s steps=%s", kv["m"], cfgOf(kv), kv["urls"], formatSteps(ss)))
 		}
 	}
 	for i := range steps {
@@ -394,7 +426,17 @@ func shrinkSeen(input string) []string {
 		}
 	}
 	if kv["m"] == "hb" {
-		out = append(out, fmt.Sprintf("m=seq urls=%s steps=%s", kv["urls"], kv["steps"]))
+		out = append(out, fmt.Sprintf("m=seq cfg=%s urls=%s steps=%s", cfgOf(kv), kv["urls"], kv["steps"]))
+	}
+	if cfgOf(kv) != "-" {
+		out = append(out, fmt.Sprintf("m=%s cfg=- urls=%s steps=%s", kv["m"], kv["urls"], kv["steps"]))
 	}
 	return out
+}
+
+func cfgOf(kv map[string]string) string {
+	if kv["cfg"] == "" {
+		return "-"
+	}
+	return kv["cfg"]
 }
